@@ -73,7 +73,7 @@ class RefBroker:
         return self.net.sched.now
 
     def send(self, ch, fr, reply=None):
-        if self.silent:
+        if self.silent or self.sock.peer_closed:
             return
         name = getattr(fr, 'name', type(fr).__name__)
         if reply is None:
@@ -183,11 +183,18 @@ class RefBroker:
 
     def on_connection_frame(self, name, fr):
         p = self.policy
+        if self.state == 'refused':
+            # the broker has sent Connection.Close: it only waits for CloseOk now
+            if name == 'Connection.CloseOk':
+                self.state = 'closed'
+                self.close_socket()
+            return
         if name == 'Connection.StartOk':
             self.start_ok = fr
             if p.drop_at == 'start-ok':
                 return self.close_socket()
             if p.refuse_at == 'start-ok':
+                self.state = 'refused'
                 return self.send(0, spec.Connection.Close(reply_code=p.refuse_code, reply_text='ACCESS_REFUSED',
                                                           class_id=10, method_id=11))
             return self.send(0, spec.Connection.Tune(channel_max=p.channel_max, frame_max=p.frame_max,
@@ -197,6 +204,7 @@ class RefBroker:
             if p.drop_at == 'tune-ok':
                 return self.close_socket()
             if p.refuse_at == 'tune-ok':
+                self.state = 'refused'
                 return self.send(0, spec.Connection.Close(reply_code=p.refuse_code, reply_text='REFUSED',
                                                           class_id=10, method_id=31))
             return
@@ -205,6 +213,7 @@ class RefBroker:
             if p.drop_at == 'open':
                 return self.close_socket()
             if p.refuse_at == 'open':
+                self.state = 'refused'
                 return self.send(0, spec.Connection.Close(reply_code=p.refuse_code, reply_text='NOT_ALLOWED',
                                                           class_id=10, method_id=40))
             self.state = 'open'
